@@ -61,6 +61,12 @@ func runConc(w *bufio.Writer, id int, seed int64) (fails int) {
 		live map[string]*shape.Rec // uuid -> last accepted value
 	}
 	owns := make([]own, G)
+	// CONTENDED unique keys: every goroutine tries to insert NEW objects holding keys of one small
+	// shared pool (never updated, never deleted afterwards). Linearizability of InsertOrUpdate
+	// with a unique constraint: at most one insert per shared key may ever succeed, whatever the
+	// interleaving, and the winners are in the final state.
+	sharedWin := map[string]string{} // shared key -> uuid of the accepted object
+	sharedLive := map[string]*shape.Rec{}
 	var mu sync.Mutex // only guards the test's own bookkeeping of failures
 	var wg sync.WaitGroup
 	done := make(chan struct{})
@@ -148,6 +154,20 @@ func runConc(w *bufio.Writer, id int, seed int64) (fails int) {
 						}
 						break
 					}
+				case x < 74: // race for a shared unique key
+					rec := flatToRec(genRec(rr, c))
+					rec.TM, rec.VM = 0, 0
+					rec.K = fmt.Sprintf("shared-%d", rr.Intn(4))
+					if err := db.InsertOrUpdate(rec); err == nil {
+						mu.Lock()
+						if prev, dup := sharedWin[rec.K]; dup {
+							fail("not linearizable: two inserts of the unique key %q were both accepted (objects %s and %s)", rec.K, prev, rec.UUID())
+						}
+						sharedWin[rec.K] = rec.UUID()
+						cp := *rec
+						sharedLive[rec.UUID()] = &cp
+						mu.Unlock()
+					}
 				case x < 80: // chained search refinements while others write
 					fld := rr.Intn(NF)
 					s := db.Search(&shape.Rec{}, shape.Paths[fld], ">=", keyValue(genRec(rr, c).K[fld], fld, false))
@@ -200,6 +220,9 @@ func runConc(w *bufio.Writer, id int, seed int64) (fails int) {
 		for u, rec := range owns[g].live {
 			want[u] = recToFlat(flatToRecCanon(e, rec), 0).String()
 		}
+	}
+	for u, rec := range sharedLive {
+		want[u] = recToFlat(flatToRecCanon(e, rec), 0).String()
 	}
 	if len(got) != len(want) {
 		fail("final state: %d objects stored, want %d", len(got), len(want))
